@@ -235,7 +235,7 @@ class C08(Check):
                  S.FANFAIL(2), S.GRPIN(K), S.REGRADE(K), S.FANGATE(2), S.REENT(K), S.REENT(K, src_cycle=1), S.GRP2(K, horizon=hg),
                  S.NEST_MID(K, horizon=hg), S.NEST_OUT(K, horizon=hg), S.BLOCK(K), S.BATCH(K), S.REWIRE(K), S.GATEGRP(K),
                  S.GRPPASS(K), S.NEST_PASS(K)]
-        return _line_jobs(specs, ['route'], tier) + topo_jobs(['route'], tier)
+        return _line_jobs(specs, ['route'], tier) + _line_jobs([S.NESTBATCH(K)], ['route', 'nesthistory'], tier) + topo_jobs(['route'], tier)
 
 
 @check
@@ -326,7 +326,7 @@ class C16(Check):
         K = 1 if tier == 'quick' else 2
         specs = [S.VALUE(K), S.VALUE(K + 1, horizon=4), S.VALUE_BATCH(K), S.MAINT(K), S.MAINT(K + 1, n=1),
                  S.VALUE_NEST(K), S.VALUE_NEG(K), S.VALUE_NEG(K + 1, horizon=4), S.VALUE0(K), S.VALUE0(K + 1, horizon=4),
-                 S.VALUE_FRAC(K), S.VALUE_FRAC(K + 1, horizon=3), S.VALUE_HOLD(K + 1)]
+                 S.VALUE_FRAC(K), S.VALUE_FRAC(K + 1, horizon=3), S.VALUE_HOLD(K + 1), S.VALUE_ALL(K)]
         return _line_jobs(specs, ['value'], tier) + topo_jobs(['value'], tier)
 
 
@@ -357,7 +357,8 @@ class C17(Check):
         specs += [S.BUFBATCH(K), S.BUFBATCH(K, pattern=(3, 2), cap=4, size=2), S.BATCHGATE(K), S.GRPBATCH(K), S.EMPTYBATCH(K),
                   S.BATCH(K, size=2, cap=6, sink_cycle=2), S.BUFBATCH(K, pattern=(3, 3, None), cap=5, size=None, sink_cycle=2),
                   S.EMPTYBATCH_SCRIPT(K), S.BATCHSLOW(K)]
-        return _line_jobs(specs, ['batching', 'census', 'route'], tier) + \
+        # nested batches: the history clause only (see scenarios.NESTBATCH)
+        return _line_jobs(specs, ['batching', 'census', 'route'], tier) + _line_jobs([S.NESTBATCH(K)], ['route', 'nesthistory'], tier) + \
             topo_jobs(['batching', 'census', 'route'], tier, kinds=('batcher',))
 
 
@@ -433,6 +434,7 @@ class C19(Check):
         specs.append(S.SENS(K, interval=0.5, cap=None, n=0, ocap=1, two_cms=True, cms_twice=False))
         specs.append(S.SENS(K, interval=1, cap=2, n=0, second=0.5, same_name=True))
         specs.append(S.SENS(K, interval=1, cap=2, n=1, post_dq=-0.125))
+        specs.append(S.SENS(K, interval=1, cap=2, n=0, burst=True, horizon=3))
         # sensors and a CMS created while the line is running / between two runs: same schedule from their creation on
         late = S.LATE(1, creates=[[7], [8], [9]], horizon=4, name='sens')
         specs += [late, S.with_splits(late)]
